@@ -153,6 +153,10 @@ LEMMAS = [
 from contracts import c06_pwd  # noqa: E402
 
 CONTRACTS += c06_pwd.CONTRACTS
+from contracts import c09_frames as _fr  # noqa: E402
+
+# a salt pinned on a customised copy (using(salt=...), mainly for testing) never leaks to the hasher it was derived from (shared with C09)
+CONTRACTS += [c for c in _fr.CONTRACTS if c.id.startswith(("HasSalt.using", "cisco_type7.using"))]
 BOUNDED = [Bounded("c06", "harness/c06.py", descr="exhaustive small draws through the real helpers; salt sizes/alphabets; pwd entropy")]
 
 MUTANTS = [
